@@ -16,6 +16,11 @@ partial def parseTForest : List SExp → Option TForest
       let k ← parseTForest kids
       let n ← parseTForest rest
       pure (.agg .STANDBY .INACTIVE k n)
+  | .list (.atom "N" :: kids) :: rest => do
+      -- made by workflow.NewAggregatorRole: zero values, nothing folded yet
+      let k ← parseTForest kids
+      let n ← parseTForest rest
+      pure (.agg .UNKNOWN .UNDEFINED k n)
   | .list [.atom "T", c] :: rest => do
       let n ← parseTForest rest
       pure (.leaf false ⟨← c.bool?, false⟩ .STANDBY .INACTIVE n)
@@ -120,6 +125,10 @@ def processLine (line : String) : String :=
           match implForests with
           | none => (false, "-")
           | some gs =>
+            if !(uniformInitT f) then
+              -- non-uniform presets (N nodes): per update, the path above the updated leaf is re-folded
+              (stepsOkT gs us && gs.length == us.length + 1 && (gs.head?.map dumpT) == some (dumpT f), "-")
+            else
             let sOk := gs.all stateOkT
             let uOk := gs.all statusOkT
             if sOk && uOk then (true, "-")
